@@ -33,7 +33,10 @@ def src_mutator(old, new, count=1):
             if o not in src:
                 raise LookupError("canary pattern %r not present in current source" % o)
             src = src.replace(o, n, count)
-        return ast.parse(src)
+        try:
+            return ast.parse(src)
+        except SyntaxError as e:      # the surrounding code changed shape: the canary no longer fits
+            raise LookupError("canary replacement no longer yields valid code here: %s" % e)
     return mutate
 
 
